@@ -390,6 +390,70 @@ func ZZ_C06_QueueFaults() {
 	zzvf.Reach("queue-faults")
 }
 
+// zz6Order: the collector's view over all connections, in arrival order — whole frames are reference
+// frames of accepted packs (indexed by their concrete project code 1000+i) in acceptance order without
+// duplicates; after the first connection only whole frames; returns which frames were delivered.
+func zz6Order(what string, frames [][]byte, flen int) []bool {
+	next := 0
+	inOrder, isRef, whole := true, true, true
+	delivered := make([]bool, len(frames))
+	for li, l := range znet.Links {
+		r := l.Rcvd
+		if li > 0 && len(r)%flen != 0 {
+			whole = false
+		}
+		for off := 0; off+flen <= len(r); off += flen {
+			idx := (int(r[off+8])<<8 | int(r[off+9])) - 1000
+			if idx < next || idx >= len(frames) {
+				inOrder = false
+				continue
+			}
+			isRef = zzvf.And(isRef, zzvf.Same(r[off:off+flen], frames[idx]))
+			delivered[idx] = true
+			next = idx + 1
+		}
+	}
+	zzvf.Assert(inOrder, what+"/frames-arrive-in-acceptance-order-without-duplicates")
+	zzvf.Assert(isRef, what+"/every-whole-frame-is-the-reference-frame-of-its-pack")
+	zzvf.Assert(whole, what+"/only-whole-frames-after-the-reconnect")
+	return delivered
+}
+
+// The REAL background loop process() draining the queue while the first connection is lost at an
+// arbitrary byte offset of the first two frames (detected 0 / 5 / 50 bytes later): six accepted packs
+// (every second one asks for a flush), the loop runs until the queue is empty and is then cancelled.
+// Same oracle as QueueFaults; the packs queued behind the loss are delivered after the reconnect.
+//vf: paths=20000 fan=400
+func ZZ_C06_QueueProcessFaults() {
+	znet.Reset()
+	const flen = 48
+	cut := zzvf.IntRange(0, 2*flen)
+	gap := []int{0, 5, 50}[zzvf.Choose(3)]
+	znet.Plan = []znet.Link{{Cut: cut, ErrAt: cut + gap}}
+	c := zz6Client(true, 20)
+	var frames [][]byte
+	for i := 0; i < 6; i++ {
+		p := pack.NewTextPack()
+		p.Pcode, p.Oid, p.Time = int64(1000+i), zzvf.Int32(), zzvf.Int64()
+		rec := pack.TextRec{Div: zzvf.Byte(), Hash: zzvf.Int32(), Text: zzvf.String(1)}
+		p.AddText(rec)
+		body := zz6Cat([]byte{2}, zz6BE(uint64(p.Pcode), 2), zz6BE(uint64(p.Oid), 4), zz6BE(uint64(p.Time), 8),
+			[]byte{1, 1}, []byte{rec.Div}, zz6BE(uint64(rec.Hash), 4), []byte{1}, []byte(rec.Text))
+		payload := zz6Cat(zz6BE(0x0700, 2), body)
+		f := zz6Cat([]byte{10, 0}, zz6BE(uint64(p.Pcode), 8), zz6BE(uint64(whash.Hash64Str(zz6Lic)), 8), zz6BE(uint64(len(payload)), 4), payload)
+		zzvf.Assert(len(f) == flen, "process-faults/frame-length-as-planned")
+		zzvf.Assert(c.SendFlush(p, i%2 == 1) == nil, "process-faults/accepted-while-there-is-room")
+		frames = append(frames, f)
+	}
+	zzvf.OnWait(1, func() { c.cancel() })
+	c.process()
+	zzvf.Assert(c.Queue.Size() == 0, "process-faults/queue-drained")
+	delivered := zz6Order("process-faults", frames, flen)
+	zzvf.Assert(delivered[5] && delivered[4], "process-faults/packs-queued-behind-the-loss-are-delivered-after-the-reconnect")
+	zzvf.Assert(len(znet.Links) == 2, "process-faults/reconnected-exactly-once")
+	zzvf.Reach("process-faults")
+}
+
 // A healthy connection stays usable across idle periods longer than the write timeout
 // (60 s): the write deadline is renewed for every write. Connection opened by the
 // constructor's Connect or by the first send; idle 0 / 61 s / 10 min between sends.
